@@ -151,20 +151,23 @@ def run_nonmarkov(spec, props=("C11",)):
     D = [num(x) for x in spec["menu"]]
     form = spec.get("form", "sep")
     full = bool(spec.get("full", True))
-    cls = classify(spec)
+    cls = classify(spec) + (("+ret:" + spec["rettype"]) if spec.get("rettype") else "")
 
     def call(orc, full_):
         tab = orc.ctx.setdefault("tab", {"delay": {}, "dur": {}, "sus": {}})
 
+        rt = spec.get("rettype")
+        conv = {None: (lambda x: x), "np": np.float64, "int": (lambda x: int(x) if x not in (INF, -INF) and float(x).is_integer() else x)}[rt]
+
         def tf(u, v):
             if (u, v) not in tab["delay"]:
                 tab["delay"][(u, v)] = orc.pick("delay", D, info=("delay", u, v))
-            return tab["delay"][(u, v)]
+            return conv(tab["delay"][(u, v)])
 
         def rf(u):
             if u not in tab["dur"]:
                 tab["dur"][u] = orc.pick("dur", D, info=("dur", u))
-            return tab["dur"][u]
+            return conv(tab["dur"][u])
 
         def joint(node, sus):
             sus = list(sus)
@@ -576,6 +579,13 @@ def specs_nonmarkov(tier):
                             out.append(dict(fn="fast_nonMarkov_SIR", n=n, edges=es, I0=list(I0), R0=list(R0),
                                             tmin=tmin, tmax=tmax, menu=m, form=form, full=full))
         if n <= 3 and es:
+            # the user's functions answer with numpy scalars / Python ints instead of floats
+            for I0 in ([0], [1]):
+                for rt in ("np", "int"):
+                    for form in ("sep", "joint"):
+                        for full in (True, False):
+                            out.append(dict(fn="fast_nonMarkov_SIR", n=n, edges=es, I0=list(I0), R0=[], tmin=0, tmax=("inf" if form == "sep" else 2),
+                                            menu=[0, 1, 2, "inf"] if len(es) <= 2 else [0, 1, "inf"], form=form, full=full, rettype=rt))
             for I0 in ([0], [1]):
                 for form in ("sep_args", "joint_args"):
                     for full in (True, False):
